@@ -53,6 +53,7 @@ class Recon:
         self.env = None
         self.return_envs: list[tuple] = []  # (conds, {param: term}) at every return statement
         self.falls_through = True           # the end of the body is reachable
+        self.nonnull_dicts: set = set()     # local dictionaries all of whose stored values cannot be None (second pass of run())
 
     # ------------------------------------------------------------------ expressions
     def ex(self, n, env):
@@ -98,7 +99,11 @@ class Recon:
             parts = []
             for op, c in zip(n.ops, n.comparators):
                 r = self.ex(c, env)
-                parts.append(mkcmp(type(op).__name__, left, r))
+                opn = type(op).__name__
+                if opn in ('Is', 'IsNot') and r == ('const', None) and isinstance(left, tuple) and left[:1] == ('dget',):
+                    parts.append(mkcmp('NotIn' if opn == 'Is' else 'In', left[2], left[1]))
+                else:
+                    parts.append(mkcmp(opn, left, r))
                 left = r
             t = parts[0]
             for p in parts[1:]:
@@ -219,6 +224,10 @@ class Recon:
                 kws = tuple(sorted(supplied.items()))
                 DUAL.add(q)
         t = ('call', q, args, kws, uid)
+        if q == '.get' and len(args) == 2 and not kws and isinstance(n.func, ast.Attribute) and isinstance(n.func.value, ast.Name) \
+                and n.func.value.id in self.nonnull_dicts:
+            # d.get(k) on a dictionary that never holds None: the element if present (its comparison with None is a membership test)
+            return ('dget', args[0], args[1])
         if q == 'len' and len(args) == 1 and not kws:
             ln = _length_of(args[0])
             if ln is not None:
@@ -540,7 +549,57 @@ class Recon:
         self.block(self.f.node.body, env, [])
         self.falls_through = not env.get('__dead__')
         self.env = env
+        if not self.nonnull_dicts and not getattr(self, '_second_pass', False):
+            cands = self._nonnull_dict_candidates()
+            if cands:
+                # second pass: `d.get(k)` / `d.get(k) is None` on these dictionaries are read as element access / membership test
+                self.events, self.calls, self.return_envs = [], [], []
+                self.nonnull_dicts = cands
+                self._second_pass = True
+                return self.run()
         return self
+
+    def _nonnull_dict_candidates(self):
+        """local names that are dictionaries, receive `.get(k)` somewhere, and into which only values that cannot be None are stored"""
+        got = set()
+        for n in ast.walk(self.f.node):
+            if isinstance(n, ast.Call) and isinstance(n.func, ast.Attribute) and n.func.attr == 'get' and isinstance(n.func.value, ast.Name) \
+                    and len(n.args) == 1 and not n.keywords:
+                got.add(n.func.value.id)
+        if not got:
+            return set()
+        params = set(self.f.params)
+        inits, ok = {}, {}
+        for n in ast.walk(self.f.node):
+            if isinstance(n, ast.Assign) and len(n.targets) == 1 and isinstance(n.targets[0], ast.Name) and n.targets[0].id in got:
+                v = n.value
+                empty = (isinstance(v, ast.Dict) and not v.keys) or (isinstance(v, ast.Call) and isinstance(v.func, ast.Name) and v.func.id == 'dict' and not v.args and not v.keywords)
+                inits.setdefault(n.targets[0].id, []).append(empty)
+        out = set()
+        for name in got:
+            if name in params or not inits.get(name) or not all(inits[name]):
+                continue
+            stores = [ev for ev in self.events if ev.kind == 'store' and ev.data[0] == name]
+            if stores and all(_cannot_be_none(ev.data[2]) for ev in stores):
+                out.add(name)
+        return out
+
+
+def _cannot_be_none(t, depth=0):
+    if depth > 6 or not isinstance(t, tuple) or not t:
+        return False
+    h = t[0]
+    if h == 'const':
+        return t[1] is not None
+    if h in ('loopvar', 'bin', 'tuple', 'list'):
+        return True
+    if h == 'call':
+        return t[1] in ('len', 'int', 'float', 'str', 'tuple', 'list') or t[1].startswith('numpy.')
+    if h in ('carried', 'after'):
+        return _cannot_be_none(t[2], depth + 1) if len(t) > 2 else False
+    if h == 'phi':
+        return _cannot_be_none(t[2], depth + 1) and _cannot_be_none(t[3], depth + 1)
+    return False
 
 
 def _length_of(t):
@@ -886,6 +945,8 @@ def canon(t):
 def simplify(t):
     """idx(upd(x,c,v),c) -> v ; upd(x,c,idx(x,c)) -> x ; strip 'after' wrappers"""
     def rule(x):
+        if x and x[0] == 'dget':
+            return mkidx(x[1], x[2])
         if x and x[0] == 'idx' and isinstance(x[1], tuple) and x[1] and x[1][0] == 'upd' and x[1][2] == x[2]:
             return x[1][3]
         if x and x[0] == 'upd':
